@@ -32,10 +32,11 @@ class Digits:
 
 class OpaqueStr:
     """String piece of unknown content."""
-    __slots__ = ('t',)
+    __slots__ = ('t', 'alpha')
 
-    def __init__(self, t):
+    def __init__(self, t, alpha=False):
         self.t = t
+        self.alpha = alpha      # known to consist of lower-case ASCII letters only (possibly empty)
 
     def __repr__(self):
         return f'OpaqueStr<{self.t}>'
